@@ -175,13 +175,17 @@ Section copies.
   Lemma aux_not_c f : f ∈ F → ∀ m, m ∈ dom c → aux f ≠ m.
   Proof. intros Hf m Hm <-. by apply (Hauxc f). Qed.
 
-  Lemma copy_step_inv j A A' : copy_inv j A →
-    copy_step CUT spl F (A, Done) j = (A', Done) → copy_inv (S j) A'.
+  Lemma splice_facts j A A1 : copy_inv j A →
+    add_subcircuit A CUT (cn j) ((λ n, (n, [n])) <$> spl) = (A1, Done) →
+    c_name A1 = c_name A ∧ c_bbs A1 = kmap (pre (cn j)) (c_bbs C) ∪ c_bbs A ∧
+    (∀ x, x ∈ dom (c_g A) → c_g A1 !! x = c_g A !! x) ∧
+    (∀ m info, c !! m = Some info → c_g A1 !! pre (cn j) m = Some (copy_info Fs (cn j) m info)) ∧
+    (∀ f, f ∈ F → c_g A1 !! pre (cn j) (aux f) = Some (mk_node Buf false ∅)) ∧
+    (∀ x, is_Some (c_g A1 !! x) → x ∈ dom (c_g A) ∨ ∃ m, m ∈ dom gcut ∧ x = pre (cn j) m) ∧
+    (∀ x m, x ∈ dom (c_g A) → m ∈ dom gcut → x ≠ pre (cn j) m).
   Proof.
-    intros [Hn Hb Htop Hcopy Haux Hdom]. unfold copy_step.
-    destruct (add_subcircuit A CUT (cn j) ((λ n, (n, [n])) <$> spl)) as [A1 o1] eqn:E.
-    destruct o1 as [|e]; [|done].
-    apply add_subcircuit_inv in E as (_ & Hfresh & _ & Hname & Hbb1 & Hfold).
+    intros [Hn Hb Htop Hcopy Haux Hdom] Eadd.
+    apply add_subcircuit_inv in Eadd as (_ & Hfresh & _ & Hname & Hbb1 & Hfold).
     change (c_g CUT) with gcut in *. change (c_bbs CUT) with (c_bbs C) in *.
     set (S0 := c_g A ∪ rename (pre (cn j)) (strip_io gcut)) in *.
     apply (conn_fold_inputs_done CUT (cn j) spl (λ n, n)) in Hfold as [Hc1 Hc2];
@@ -230,6 +234,17 @@ Section copies.
     { intros x Hx. apply HS_dom. destruct (decide (Exists (λ n, x = pre (cn j) n) spl)) as [(n & Hn' & ->)%Exists_exists|Hno].
       - rewrite (Hc1 n Hn') in Hx. by apply fmap_is_Some in Hx.
       - rewrite Hc2 in Hx; [done|]. intros n Hn' ->. apply Hno. apply Exists_exists. eauto. }
+    done.
+  Qed.
+
+  Lemma copy_step_inv j A A' : copy_inv j A →
+    copy_step CUT spl F (A, Done) j = (A', Done) → copy_inv (S j) A'.
+  Proof.
+    intros Hinv. pose proof Hinv as [Hn Hb Htop Hcopy Haux Hdom]. unfold copy_step.
+    destruct (add_subcircuit A CUT (cn j) ((λ n, (n, [n])) <$> spl)) as [A1 o1] eqn:Eadd.
+    destruct o1 as [|e]; [|done].
+    destruct (splice_facts j A A1 Hinv Eadd) as (Hname & Hbb1 & Hg1_old & Hg1_copy & Hg1_aux & Hg1_dom & Hold_new).
+    set (g1 := c_g A1) in *.
     (* the aux step: its targets are the aux nodes of copy j *)
     assert (Hfin : ∀ g2, (∀ x, (∀ f, f ∈ F → x ≠ pre (cn j) (aux f)) → g2 !! x = g1 !! x) →
                    (∀ f, f ∈ F → g2 !! pre (cn j) (aux f) = Some (aux_node j f)) →
@@ -335,28 +350,19 @@ Definition inputs_undriven (c : circuit) : Prop := ∀ m info, c !! m = Some inf
 Lemma nodes_functional (l : list (string * ninfo)) x j1 j2 : NoDup l.*1 → (x, j1) ∈ l → (x, j2) ∈ l → j1 = j2.
 Proof. intros Hnd H1 H2. apply (elem_of_list_to_map (M := gmap string)) in H1, H2; try done. congruence. Qed.
 
-Theorem acyclic_unroll_closed_form C F A :
-  closed (c_g C) → inputs_undriven (c_g C) → startpoints (c_g C) = inputs (c_g C) →
-  NoDup (unrolled_nodes (c_g C) F).*1 →
-  acyclic_unroll C F = Ok A →
-  A = {| c_name := "acyc_" ++ c_name C; c_g := unrolled (c_g C) F; c_bbs := ∅ |}.
+Lemma steps_closed_form C F g0 gcut A1 g2 :
+  closed (c_g C) → inputs_undriven (c_g C) → NoDup (unrolled_nodes (c_g C) F).*1 →
+  NoDup F → (∀ f, f ∈ F → f ∈ dom (c_g C)) → c_bbs C = ∅ →
+  add_inputs ∅ (elements (inputs (c_g C))) = (g0, Done) →
+  cut_circuit (c_g C) F = (gcut, Done) →
+  foldl (copy_step (with_g C gcut) (elements (inputs (c_g C))) F)
+        ({| c_name := "acyc_" ++ c_name C; c_g := g0; c_bbs := ∅ |}, Done) (seq 0 (S (length F))) = (A1, Done) →
+  foldl (out_step (inputs (c_g C)) (cn (length F))) (c_g A1, Done) (elements (outputs (c_g C))) = (g2, Done) →
+  with_g A1 g2 = {| c_name := "acyc_" ++ c_name C; c_g := unrolled (c_g C) F; c_bbs := ∅ |}.
 Proof.
-  intros Hcl Hin0 Hsp Hnd. unfold acyclic_unroll. rewrite Hsp.
-  destruct (negb (bool_decide (c_bbs C = ∅))) eqn:Hb; [done|]. apply negb_false_iff, bool_decide_eq_true in Hb.
-  destruct (has_self_loop (c_g C)); [done|].
-  destruct (negb (bool_decide (NoDup F)) || _) eqn:HF; [done|].
-  apply orb_false_iff in HF as [HF1%negb_false_iff%bool_decide_eq_true HF2%negb_false_iff].
-  assert (HFd : ∀ f, f ∈ F → f ∈ dom (c_g C)).
-  { intros f Hf. rewrite forallb_forall in HF2. specialize (HF2 f). rewrite <- elem_of_list_In in HF2.
-    specialize (HF2 Hf). by apply bool_decide_eq_true in HF2. }
-  set (c := c_g C) in *. set (spl := elements (inputs c)).
+  intros Hcl Hin0 Hnd HF1 HFd Hb E0 Ecut Ecp Eout.
+  set (c := c_g C) in *. set (spl := elements (inputs c)) in *.
   assert (Hspl : ∀ n, n ∈ spl ↔ n ∈ inputs c) by (intros n; apply elem_of_elements).
-  unfold lift.
-  destruct (add_inputs ∅ spl) as [g0 o0] eqn:E0. destruct o0 as [|e]; [|done].
-  destruct (cut_circuit c F) as [gcut oc] eqn:Ecut. destruct oc as [|e]; [|done].
-  destruct (foldl (copy_step _ spl F) _ (seq 0 (S (length F)))) as [A1 o1] eqn:Ecp. destruct o1 as [|e]; [|done].
-  destruct (foldl (out_step _ _) _ _) as [g2 o2] eqn:Eout. destruct o2 as [|e]; [|done].
-  destruct (lint _ _); try done. destruct (acyclicb g2); [|done]. intros [= <-].
   apply add_inputs_done in E0 as (I1 & I2 & _).
   apply cut_circuit_done in Ecut as [Hgcut Hauxc]; [|done..].
   assert (Hinv0 : copy_inv C F ("acyc_" ++ c_name C) 0 {| c_name := "acyc_" ++ c_name C; c_g := g0; c_bbs := ∅ |}).
@@ -404,6 +410,31 @@ Proof.
       * apply elem_of_list_fmap in Hm as (f & -> & Hf). destruct i as [|i].
         -- eapply Hkey, in_aux0; done.
         -- eapply Hkey, (in_auxS c F i f); [lia|done].
+Qed.
+
+Theorem acyclic_unroll_closed_form C F A :
+  closed (c_g C) → inputs_undriven (c_g C) → startpoints (c_g C) = inputs (c_g C) →
+  NoDup (unrolled_nodes (c_g C) F).*1 →
+  acyclic_unroll C F = Ok A →
+  A = {| c_name := "acyc_" ++ c_name C; c_g := unrolled (c_g C) F; c_bbs := ∅ |}.
+Proof.
+  intros Hcl Hin0 Hsp Hnd. unfold acyclic_unroll. rewrite Hsp.
+  destruct (negb (bool_decide (c_bbs C = ∅))) eqn:Hb; [done|]. apply negb_false_iff, bool_decide_eq_true in Hb.
+  destruct (has_self_loop (c_g C)); [done|].
+  destruct (negb (bool_decide (NoDup F)) || _) eqn:HF; [done|].
+  apply orb_false_iff in HF as [HF1%negb_false_iff%bool_decide_eq_true HF2%negb_false_iff].
+  assert (HFd : ∀ f, f ∈ F → f ∈ dom (c_g C)).
+  { intros f Hf. rewrite forallb_forall in HF2. specialize (HF2 f). rewrite <- elem_of_list_In in HF2.
+    specialize (HF2 Hf). by apply bool_decide_eq_true in HF2. }
+  set (c := c_g C) in *. set (spl := elements (inputs c)).
+  assert (Hspl : ∀ n, n ∈ spl ↔ n ∈ inputs c) by (intros n; apply elem_of_elements).
+  unfold lift.
+  destruct (add_inputs ∅ spl) as [g0 o0] eqn:E0. destruct o0 as [|e]; [|done].
+  destruct (cut_circuit c F) as [gcut oc] eqn:Ecut. destruct oc as [|e]; [|done].
+  destruct (foldl (copy_step _ spl F) _ (seq 0 (S (length F)))) as [A1 o1] eqn:Ecp. destruct o1 as [|e]; [|done].
+  destruct (foldl (out_step _ _) _ _) as [g2 o2] eqn:Eout. destruct o2 as [|e]; [|done].
+  destruct (lint _ _); try done. destruct (acyclicb g2); [|done]. intros [= <-].
+  by apply (steps_closed_form C F g0 gcut A1 g2).
 Qed.
 
 (* ---------- F. the property theorems, restated about the model ---------- *)
